@@ -31,6 +31,7 @@ def run(ck, fb):
         'the route branches on its result; the follower records its temporary value only after the leader\'s answer was decoded; the '
         'leader-side router answers a routed write from the result of the same route functions.')
     ck.undecided = 'Does not decide durability or convergence under crash/partition schedules (needs running nodes).'
+    ck.borrow('rules.c07', {'R07d': 'R06e'}, 'a follower must not drop a committed entry: do_send (unbounded) only, never try_send / detached tasks')
     ck.rule('R06a', 'no Result on the config commit chain is discarded (.ok() / unused): ConfigRoute::{set_config,del_config}, '
                     'Handler<ConfigAsyncCmd>, send_raft_request; client_write is awaited with ?')
     names, bodies = chain_bodies(fb)
@@ -129,7 +130,7 @@ def run(ck, fb):
     b = fb.main(CR + 'set_config') if fb.has(CR + 'set_config') else None
     if b:
         tmp = util.sends(b, r'config::core::ConfigCmd$', 'SetTmpValue')
-        ck.require(len(tmp) == 1, 'R06c', 'set_config:SetTmpValue', b.where(), 'SetTmpValue site not found')
+        ck.require(len(tmp) >= 1, 'R06c', 'set_config:SetTmpValue', b.where(), 'SetTmpValue site not found')
         dec = b.calls(r'serde_json::from_slice')
         snd = b.calls(r'RaftClusterRequestSender::send_request$')
         for (s, m, v, a) in tmp:
@@ -147,7 +148,7 @@ def run(ck, fb):
     ck.rule('R06d', 'leader side of a routed write: handle_route answers RouterRequest::{ConfigSet,ConfigDel} from the awaited result of the '
                     'same ConfigRoute functions (error propagated with ?)')
     hr = [x for x in fb.find(r'^rnacos::raft::cluster::handle_route') if not x.parent]
-    ck.require(len(hr) == 1, 'R06d', 'handle_route:exists', '-', 'raft::cluster::handle_route not found')
+    ck.require(len(hr) >= 1, 'R06d', 'handle_route:exists', '-', 'raft::cluster::handle_route not found')
     for x in hr:
         m = fb.main(x.name)
         ck.analysed(m)
